@@ -5,7 +5,7 @@ use crate::out::{Case, Out};
 use crate::rng::Rng;
 use crate::world;
 
-pub fn run(seed: u64, n: usize, out: &mut Out, with_sem: bool, known_defects: u32) {
+pub fn run(seed: u64, n: usize, out: &mut Out, with_sem: bool, known_defects: u32, panic_oracle: bool) {
     let mut rng = Rng::new(seed);
     let schema = world::schema();
     let mut stats = GenStats { generated: 0, frontend_rejected: 0, frontend_panicked: 0, reject_kinds: Default::default() };
@@ -38,6 +38,15 @@ pub fn run(seed: u64, n: usize, out: &mut Out, with_sem: bool, known_defects: u3
         }
         let coq_args = case_coq_args(&c);
         let class = engine_class(&c);
+        if panic_oracle {
+            if let Outcome::Panic(m) = &o {
+                let detail = serde_json::json!({"panic": m.chars().take(300).collect::<String>()});
+                match &class {
+                    Some(k) => out.oracle_fail_class(k, "executing an accepted query panicked", input.clone(), detail),
+                    None => out.oracle_fail("executing an accepted query panicked", input.clone(), detail),
+                }
+            }
+        }
         out.add(Case {
             input: input.clone(),
             coq: format!("run_exec {coq_args}"),
